@@ -27,3 +27,21 @@ pub mod resp_ref;
 pub mod sim;
 pub mod syshist;
 pub mod syssim;
+
+/// Runs one scenario future on `$rt` under a message budget (see `sim::guarded`); a run-away
+/// scenario is reported as `<property>:message-loop`, the largest message count is kept as a counter.
+#[macro_export]
+macro_rules! run_guarded {
+    ($rt:expr, $rep:expr, $pid:expr, $sub:expr, $budget:expr, $fut:expr) => {{
+        let r = $rt.block_on($crate::sim::guarded($budget, $fut));
+        let used = $crate::sim::messages_on_this_thread();
+        $rep.set_max("max_messages_in_one_scenario", used);
+        if r.is_err() {
+            $rep.violation(
+                format!("{}:message-loop", $pid),
+                format!("the scenario exchanged more than {} messages without finishing (a forwarding / redirection / retry loop)", $budget),
+                serde_json::json!({"sub_seed": $sub}),
+            );
+        }
+    }};
+}
